@@ -548,6 +548,7 @@ func main() {
 	var tot shardResult
 	var pmodeExecs int64
 	per := map[int]*shardResult{}
+	r.JobName = func(j int) string { return fmt.Sprintf("scenario %v", scs[j]) }
 	r.Sharded(len(scs), func(j int) any { return explore(r, root, scs[j], nil) }, func(j int, raw json.RawMessage) {
 		var sr shardResult
 		if err := json.Unmarshal(raw, &sr); err != nil {
